@@ -173,9 +173,9 @@ CLAIMED["C17"] = dict(
 CLAIMED["C18"] = dict(
     text="Heap model of specs holding references to their state dictionaries; theorem: after ANY sequence of builds, updates and reuses every earlier spec "
          "reaches the same dictionary contents, given that preparing a spec for a build copies both dictionaries -- a fact regenerated from /repo's "
-         "AST each run (and refuted for the uncopied regime); drop sets are independent of the factor pool's hash order. Histories on the "
+         "AST each run (and refuted for the uncopied regime); the whole assembled result (names, values, column order, dropped rows, structure) is the same for every iteration order of the evaluated factor pool, and the scoped terms recorded for every term are the same for every order of the set of already-spanned terms. Histories on the "
          "implementation are compared with the model and re-executed call by call (bit-identical); results are compared across 5 hash seeds.",
-    note="Coq kernel + vm_compute; AST-derived purity facts (translator); CPython hash-seed independence observed in subprocesses, not proved",
+    note="Coq kernel + vm_compute; AST-derived purity facts (translator); hash-order independence proved for the two hash-ordered collections of the build model (factor pool, spanned set); CPython hash-seed independence elsewhere observed in subprocesses",
     technique="Coq invariant proof over operation histories on a heap model + generated purity facts + history correspondence + hash-seed subprocess runs",
     design="8 C18")
 CLAIMED["C20"] = dict(
